@@ -91,7 +91,7 @@ def rule_B1(ctx):
                 ctx.ob("B1", p.ret_node, f"decoder: AKAI {maps[lo]['AKAI']:#x}..{maps[hi]['AKAI']:#x} -> byte {off:+d}", ok, f"guards {g}", inst=f"fast-range:{lo}")
         if not hit:
             ctx.ob("B1", fd, f"decoder maps AKAI {maps[lo]['AKAI']:#x}..{maps[hi]['AKAI']:#x} by adding {off}", False, "no such return path", inst=f"fast-range:{lo}")
-    _symbol_map(ctx, fd, "CharFormat.AKAI", "CharFormat.ASCII", "fast")
+    _symbol_map(ctx, fd, "CharFormat.AKAI", "CharFormat.ASCII", "fast", maps)
     ok = any(p.end == "raise" and (p.raised or "").endswith("InvalidCharacter") for p in prs)
     ctx.ob("B1", fd, "decoder rejects every other byte (InvalidCharacter)", ok, "", inst="fast-reject")
     # wiring
@@ -116,29 +116,51 @@ def rule_B1(ctx):
     ctx.ob("B1", ae, "AkaiString encodes through char_ascii_to_akai", "char_ascii_to_akai(obj)" in full(ae), "", inst="AkaiString-encode")
 
 
-def _symbol_map(ctx, fn, sf, df, label):
+def _symbol_map(ctx, fn, sf, df, label, maps=None):
+    from .sem import canon_expr, single_defs, _Inline
+    import copy
     dicts = [d for d in own_nodes(fn) if isinstance(d, ast.Dict)]
     if len(dicts) != 1:
         ctx.ob("B1", fn, f"{label} converter has one symbol table", False, f"{len(dicts)} dict literals", inst=f"{label}-symbols")
         return
     d = dicts[0]
     seen = set()
+    defs = single_defs(fn)
     for k, v in zip(d.keys, d.values):
-        kt, vt = norm(k), norm(v)
+        kt, vt = canon_expr(fn, k), canon_expr(fn, v)
         ok = False
         name = None
-        for nm, ch, ak in SYMBOLS:
-            if kt == f"CHAR_MAP_{nm}[{sf}]":
-                name = nm
-                ok = vt == f"CHAR_MAP_{nm}[{df}]"
+        if maps is not None:
+            # concrete formats: decide by value (source code of the symbol -> destination code of the same symbol)
+            try:
+                kv = ctx.folder.ev(_Inline(defs).visit(copy.deepcopy(k)), fn._module)
+                vv = ctx.folder.ev(_Inline(defs).visit(copy.deepcopy(v)), fn._module)
+            except NotConst:
+                kv = vv = None
+            sfn, dfn = sf.split(".")[-1], df.split(".")[-1]
+            for nm, ch, ak in SYMBOLS:
+                if kv is not None and kv == maps[nm][sfn]:
+                    name = nm
+                    ok = vv == maps[nm][dfn]
+        else:
+            for nm, ch, ak in SYMBOLS:
+                if kt == f"CHAR_MAP_{nm}[{sf}]":
+                    name = nm
+                    ok = vt == f"CHAR_MAP_{nm}[{df}]"
         if name:
             seen.add(name)
-        ctx.ob("B1", d, f"{label} converter: symbol entry `{kt}` maps to the same symbol in the other set", ok,
+        ctx.ob("B1", d, f"{label} converter: symbol entry `{norm(k)}` maps to the same symbol in the other set", ok,
                "" if ok else f"maps to `{vt}`: the two directions no longer invert each other", inst=f"{label}-symbol:{name or kt}")
     ok = seen == {s[0] for s in SYMBOLS}
     ctx.ob("B1", d, f"{label} converter covers the five symbols", ok, f"{sorted(seen)}", inst=f"{label}-symbols")
     # lookup is by the byte, default None -> raise
-    gets = [c for c in own_nodes(fn) if isinstance(c, ast.Call) and norm(c.func) == "symbol_map.get"]
+    tbl = None
+    for a in own_nodes(fn):
+        if isinstance(a, (ast.Assign, ast.AnnAssign)) and a.value is d:
+            t = a.targets[0] if isinstance(a, ast.Assign) else a.target
+            tbl = t.id if isinstance(t, ast.Name) else None
+    gets = [c for c in own_nodes(fn) if isinstance(c, ast.Call) and isinstance(c.func, ast.Attribute) and c.func.attr == "get"
+            and (c.func.value is d or (isinstance(c.func.value, ast.Name) and c.func.value.id == tbl))]
     ok = len(gets) == 1 and norm(gets[0].args[0]) == fn.args.args[0].arg and len(gets[0].args) == 1
     ctx.ob("B1", fn, f"{label} converter looks the byte itself up in the symbol table", ok, "", inst=f"{label}-lookup")
 
@@ -157,7 +179,11 @@ def rule_B2(ctx):
     m = ctx.prog.module(MIDI)
     fi = ctx.fn(MIDI, "MidiNote.from_int_a0", "B2")
     ti = ctx.fn(MIDI, "MidiNote.to_int_a0", "B2")
-    d1, d2 = _dict_in(fi, "scale_table"), _dict_in(ti, "scale_table")
+    def only_dict(fn):
+        ds = [d for d in own_nodes(fn) if isinstance(d, ast.Dict) and len(d.keys) >= 6]
+        return ds[0] if len(ds) == 1 else None
+
+    d1, d2 = only_dict(fi), only_dict(ti)
     if d1 is None or d2 is None:
         raise AnalysisError("B2", MIDI, "scale tables not found")
     try:
@@ -176,10 +202,23 @@ def rule_B2(ctx):
     ctx.ob("B2", d1, "semitones are named A, A#, B, C, C#, D, D#, E, F, F#, G, G# (octaves start at A)", f == want, "", inst="from-table")
     prs = [p for p in run_paths(ctx, fi, rule="B2") if p.end == "return"]
     b = fi.args.args[1].arg
-    ok = bool(prs) and all(p.env.get("octave") == A(f"floordiv({b},12)") and p.env.get("scale_degree_raw") == A(f"mod({b},12)") for p in prs)
+    import re as _re
+    shapes = []
+    for p in prs:
+        k = p.ret.key() if p.ret is not None else ""
+        m = None
+        if k.startswith("cls(sub(") and k.endswith(f",floordiv({b},12))"):
+            inner = k[len("cls("):-len(f",floordiv({b},12))")]
+            # inner = sub(X,0),sub(X,1) with X = sub(<table>,mod(b,12))
+            half = (len(inner) - 1) // 2
+            l, r = inner[:half], inner[half + 1:]
+            if l.endswith(",0)") and r.endswith(",1)") and l[:-3] == r[:-3] and l.startswith("sub(sub(") and l[:-3].endswith(f",mod({b},12))"):
+                m = True
+        shapes.append((bool(m), k.endswith(f",floordiv({b},12))"), f",mod({b},12))" in k))
+    ok = bool(prs) and all(sh[1] and sh[2] for sh in shapes)
     ctx.ob("B2", fi, "octave = n // 12, semitone = n % 12", ok, "", inst="from-divmod")
-    ok = "scale_degree, is_sharp = scale_table[scale_degree_raw]" in full(fi) and "return cls(scale_degree, is_sharp, octave)" in full(fi)
-    ctx.ob("B2", fi, "the note is built from (degree, sharp, octave) of that lookup", ok, "", inst="from-build")
+    ok = bool(prs) and all(sh[0] for sh in shapes)
+    ctx.ob("B2", fi, "the note is built from (degree, sharp, octave) of that lookup", ok, "" if ok else f"{[p.ret.key()[-90:] for p in prs if p.ret is not None]}", inst="from-build")
     prs = [p for p in run_paths(ctx, ti, rule="B2") if p.end == "return"]
     def _shape(r):
         if r is None or len(r.p) != 2 or r.coeff("self.octave") != 12:
